@@ -150,8 +150,22 @@ def build_instance(spec, name="verif"):
     import_impl()
     from job_shop_lib import JobShopInstance, Operation
 
-    jobs = [[Operation(list(ms), d) for ms, d in job] for job in spec]
-    return JobShopInstance(jobs, name=name)
+    # The same instance can reach the library through three documented doors; which one is used is a function of
+    # the instance (so every case replays identically): the constructor (70%), JobShopInstance.from_matrices, or
+    # a dictionary that went through JSON and back (to_dict -> json -> from_matrices, what the benchmark loader
+    # and Schedule.from_dict do). Properties quantify over instances, not over how they were typed in.
+    route = int(case_hash(spec)[:6], 16) % 10
+    if route >= 3 or not spec:
+        jobs = [[Operation(list(ms), d) for ms, d in job] for job in spec]
+        return JobShopInstance(jobs, name=name)
+    durations = [[d for _, d in job] for job in spec]
+    flexible = any(len(ms) != 1 for job in spec for ms, _ in job)
+    machines = [[list(ms) if flexible or route == 0 else ms[0] for ms, _ in job] for job in spec]
+    inst = JobShopInstance.from_matrices(durations, machines, name=name)
+    if route == 2:
+        d = json.loads(json.dumps(inst.to_dict()))
+        inst = JobShopInstance.from_matrices(**d)
+    return inst
 
 
 def spec_of_instance(instance):
